@@ -24,6 +24,12 @@ def showId : Option Identity → String
 def decIds (t : String) : Option (List Str) :=
   if t == "nil" then none else some (decL t)
 
+/-- One scripted authenticator answer: only a caller without error counts (`err`, `nil`, `both:<ids>` do not). -/
+def decAuthn (r : String) : Option (List Str) :=
+  if r == "err" || r == "nil" || r.startsWith "both:" then none else some (decL r)
+
+def sortOnly (l : List String) : List String := l.mergeSort (fun a b => !(b < a))
+
 def decPeer : String → Peer
   | "tls" => .tls
   | "plain" => .plain
@@ -41,6 +47,7 @@ structure ClusterSpec where
   secrets : List ((Str × Str) × SecretData) := []
   cms     : List ((Str × Str) × SecretData) := []
   allow   : List (Str × Str) := []
+  sarErr  : Bool := false
 
 def lookup2 (l : List ((Str × Str) × SecretData)) (name ns : Str) : Option SecretData :=
   match l.find? (fun e => e.1 == (name, ns)) with
@@ -49,12 +56,14 @@ def lookup2 (l : List ((Str × Str) × SecretData)) (name ns : Str) : Option Sec
 
 def ClusterSpec.toCluster (c : ClusterSpec) : Cluster :=
   { id := c.id, secrets := lookup2 c.secrets, configMaps := lookup2 c.cms,
-    authz := fun sa ns => c.allow.contains (sa, ns) }
+    authz := fun sa ns => !c.sarErr && c.allow.contains (sa, ns) }
 
 structure DState where
   specs : List ClusterSpec := []
   world : World := { configCluster := [], clusters := [] }
   cache : Cache := []
+  grants : List (Bool × Str × Str) := []
+  gws : List GwConfig := []
 
 def DState.upd (d : DState) (id : Str) (f : ClusterSpec → ClusterSpec) : DState :=
   if d.specs.any (fun c => c.id == id) then
@@ -96,7 +105,7 @@ def stepD (d : DState) (toks : List String) : DState × String :=
     | some (cfg, .denied) => (d, s!"cfg={l2t cfg} denied")
     | some (cfg, .ok v) => (d, s!"cfg={l2t cfg} ok {showId v}")
   | "authn" :: xa :: peer :: pt :: rs =>
-    match authenticate (tokBool xa) (decPeer peer) (tokBool pt) (rs.map fun r => if r == "err" then none else some (decL r)) with
+    match authenticate (tokBool xa) (decPeer peer) (tokBool pt) (rs.map decAuthn) with
     | none => (d, "err")
     | some none => (d, "nil")
     | some (some ids) => (d, "ids " ++ encList (ids.map String.ofList))
@@ -130,7 +139,39 @@ def stepD (d : DState) (toks : List String) : DState × String :=
     | some o =>
       let elems := o.res.map (fun e => showVal e.1 e.2)
       ({ d with cache := o.cache },
-       s!"cached:{o.cached}/{o.cached + o.regen} {encList (sortDedup elems)} {showKeys o.cache}")
+       s!"cached:{o.cached}/{o.cached + o.regen} {encList (sortOnly elems)} {showKeys o.cache}")
+  | ["sarerr", cl] => (d.upd (s2l cl) (fun s => { s with sarErr := true }), "ok")
+  -- stream stream: authenticate, initConnection (initProxyMetadata + authorize), one SDS request
+  | "stream" :: _mode :: xa :: peer :: pt :: flag :: node :: ipok :: mns :: msa :: names :: rs =>
+    match authenticate (tokBool xa) (decPeer peer) (tokBool pt) (rs.map decAuthn) with
+    | none => (d, "unauthenticated")
+    | some ids =>
+      match connect (tokBool flag) (s2l node) (tokBool ipok) (s2l mns) (s2l msa) ids with
+      | none => (d, "badnode")
+      | some (_, .denied) => (d, "denied")
+      | some (cfg, .ok v) =>
+        let p : Proxy := { verified := v, cluster := "Kubernetes".toList, refs := none }
+        match generate d.world d.cache p (decL names) (some ⟨true, []⟩) with
+        | none => (d, s!"accepted {showId v} cfg={l2t cfg} -")
+        | some o =>
+          ({ d with cache := o.cache },
+           s!"accepted {showId v} cfg={l2t cfg} {encList (sortOnly (o.res.map (fun e => showVal e.1 e.2)))}")
+  -- stream refs
+  | ["grant", k, rn, ns] => ({ d with grants := (k == "L", s2l rn, s2l ns) :: d.grants }, "ok")
+  | ["gw", ns, sa, pns, parents] =>
+    ({ d with gws := d.gws ++ [{ ns := s2l ns, saAnn := s2l sa, parentNsAnn := s2l pns, parentsAnn := s2l parents, servers := [] }] }, "ok")
+  | ["srv", hasPort, cns, cn, mode, ca] =>
+    let sv : GwServer :=
+      if mode == "NOTLS" then { hasPort := tokBool hasPort, credNames := [], credName := [], isMutual := false, caCert := [] }
+      else { hasPort := tokBool hasPort, credNames := decL cns, credName := s2l cn,
+             isMutual := mode == "MUTUAL" || mode == "OPTIONAL_MUTUAL", caCert := s2l ca }
+    match d.gws.reverse with
+    | [] => (d, "ok")
+    | g :: rest => ({ d with gws := (({ g with servers := g.servers ++ [sv] } : GwConfig) :: rest).reverse }, "ok")
+  | ["merge", hasVid, td, ns, sa] =>
+    let vid := if tokBool hasVid then some (⟨s2l td, s2l ns, s2l sa⟩ : Identity) else none
+    let granted : Grants := fun ls rn n => d.grants.contains (ls, rn, n)
+    (d, "refs=" ++ encSet ((verifiedRefs granted vid d.gws).map String.ofList))
   | _ => (d, "bad-op")
 
 end IstioModel.C11
